@@ -32,6 +32,7 @@ CONSTANTS
   Weak_PruneDropsLastChanged,  \* PruneStates does not keep the record LastHeightChanged points to
   Weak_PruneDropsCheckpoint,   \* PruneStates does not keep the checkpoint record
   Weak_NoCheckpointRecord,     \* saveValidatorsInfo stores the full set only when the set changed
+  Weak_PruneStatesOneTooFar,   \* consensus.State.pruneBlocks prunes the state store up to retainHeight+1
   Weak_RecoveryCopyDropsValUpdates \* SaveABCIResponses (DiscardABCIResponses on) writes the crash-recovery copy
                                    \* without EndBlock.ValidatorUpdates
 
@@ -126,6 +127,13 @@ PruneStates(db, from, to) ==
      ELSE [err |-> "none",
            db |-> [h \in ((DOMAIN db) \ range) \cup (range \cap keep) |->
                      IF h \in rewrite THEN [lhc |-> h, set |-> LoadValidators(db, h).set] ELSE db[h]]]
+
+\* consensus/state.go (*State).pruneBlocks(retainHeight): the block store drops every block
+\* below retainHeight (new base = retainHeight), then the state store is pruned over
+\* [base, retainHeight) - the upper bound is exclusive, so the validators record of the new
+\* base, whose block is still served, survives.
+ConsPrune(db, base, retain) ==
+  PruneStates(db, base, IF Weak_PruneStatesOneTooFar THEN retain + 1 ELSE retain)
 
 \* ------------------------------------------------------------------ crash-recovery copy of the ABCI responses
 \* SaveABCIResponses(height, responses) always writes a second copy under lastABCIResponseKey
